@@ -87,6 +87,10 @@ def specs_core():
         E("ext_grid", j=0), E("pipe", f=0, to=1), E("press_control", f=1, to=2, cj=2, p=4.0),
         E("press_control", f=1, to=2, cj=2, p=3.5, in_service=False, control_active=True), E("pipe", f=2, to=3), E("sink", j=3),
         E("press_control", f=0, to=1, cj=0, p=2.5, in_service=False, control_active=True)]})
+    # an out-of-service pump of another type listed before the working ones (the curve must be the working pump's own)
+    S.append({"name": "pump_standby", "fluid": "water", "nj": 4, "elems": [
+        E("ext_grid", j=0), E("pump", f=0, to=1, std_type="P1", in_service=False), E("pump", f=0, to=1, std_type="P2"),
+        E("pump", f=2, to=3, std_type="P3"), E("pipe", f=1, to=2), E("sink", j=3), E("sink", j=2)]})
     S.append({"name": "compr_g_high", "fluid": "gas", "nj": 3, "jh": [850, 850, 850], "elems": [
         E("ext_grid", j=0), E("compressor", f=0, to=1), E("pipe", f=1, to=2), E("sink", j=2), E("source", j=1)]})
     S.append({"name": "pump_w_high", "fluid": "water", "nj": 3, "jh": [400, 400, 420], "elems": [
